@@ -7,7 +7,7 @@ _spec.loader.exec_module(_m)
 HARNESS = dict(_m.HARNESS, args=['--prop', 'C05'])
 
 CONFIG = {
-    'subs': ['Split', 'RecordIO'],
+    'subs': ['Split', 'RecordIO', 'Wrap', 'TIter'],
     'props_modules': ['DmlcModel.Props.C05', 'DmlcModel.Props.C05Witness'],
     'driver': 'Split',
     'harness': HARNESS,
@@ -43,3 +43,18 @@ MANIFEST = {
     'technique': 'Lean 4 proof (invariant over the state machine) + source-to-Lean translator + differential correspondence of '
                  'exhaustive short and random long operation histories',
 }
+
+
+# C05 behind the PREFETCHING wrapper (ThreadedInputSplit): served by the C10 harness in --prop C05 mode (same cached
+# binary as C10; histories over {rec, chunk, bf, reset k n, hint} on the threaded wrapper, constructed directly and through
+# InputSplit::Create, text and recordio; oracle: stream after bf/reset = stream of a fresh unwrapped split)
+CONFIG['extra'] = [{
+    'driver': 'Wrap',
+    'harness': {'name': 'wrappers',
+                'srcs': ['harness/h_wrappers.cc', 'harness/h_wrappers_vs.cc', '$REPO/src/io/input_split_base.cc',
+                         '$REPO/src/io/line_split.cc', '$REPO/src/io/recordio_split.cc', '$REPO/src/recordio.cc', '$REPO/src/io.cc',
+                         '$REPO/src/io/local_filesys.cc', '$REPO/src/io/filesys.cc', '$REPO/src/io/indexed_recordio_split.cc'],
+                'flags': ['-DDMLC_CORE_VERIF_BUFFER_WORDS=4', '-D_GLIBCXX_SANITIZE_VECTOR'],
+                'args': ['--prop', 'C05'],
+                'timeout': 600},
+}]
